@@ -1,7 +1,7 @@
 // native replay for the SEQ obligations of unit stampq (stampq.push.*, stampq.remove.*, stampq.tail_stamp.lower_bound, stampq.mid.*,
 // stampq.update_tail.source): builds the queue state cbmc found on the REAL stamp_it::thread_order_queue and runs the real push / remove.
 //   in_mode 1: push(X) on a quiescent queue    2: remove(block in_k) on a quiescent queue    3: mid-operation state, in_op 0 = push, 1 = remove(in_k)
-//   in_n blocks (0..3) with stamps in_s0..in_s2 (oldest first), head stamp in_hs, tail stamp in_ts, tags in_tp*/in_tn*/in_thp/in_ttn,
+//   in_n blocks (0..3) with stamps in_s0..in_s3 (oldest first), head stamp in_hs, tail stamp in_ts, tags in_tp*/in_tn*/in_thp/in_ttn,
 //   leftovers of the pushed block in_xs/in_xp/in_xn (model words: block index << 18 | mark; indices 1 tail, 2 head, 3.. list blocks, 3 + in_lmax = X),
 //   mid states: in_pend (1 pending stamp, 2 lagging next), in_d (stalled remover's block + 1), in_dst (1..4 how far it got)
 // exit 0 holds, 1 violation reproduced, 2 cannot represent
@@ -29,13 +29,13 @@ int main(int argc, char** argv) {
   for (int i = 1; i < argc; ++i) { char* eq = strchr(argv[i], '='); if (!eq) continue; args[std::string(argv[i], eq - argv[i])] = strtoull(eq + 1, 0, 0); }
   unsigned mode = (unsigned)args["in_mode"], n = (unsigned)args["in_n"], k = (unsigned)args["in_k"];
   unsigned lmax = args.count("in_lmax") ? (unsigned)args["in_lmax"] : 3;
-  if (mode < 1 || mode > 3 || lmax < 1 || lmax > 3 || n > lmax) return 2;
+  if (mode < 1 || mode > 3 || lmax < 1 || lmax > 4 || n > lmax) return 2;
   nblk = 4 + lmax;
   stamp_it::thread_order_queue q;
   blk[0] = nullptr; blk[1] = q.tail; blk[2] = q.head;
   for (int i = 3; i < 8; ++i) blk[i] = new tcb();
-  size_t st[3] = {(size_t)args["in_s0"], (size_t)args["in_s1"], (size_t)args["in_s2"]}, hs = args["in_hs"], ts = args["in_ts"];
-  unsigned long long tp[3] = {args["in_tp0"], args["in_tp1"], args["in_tp2"]}, tn[3] = {args["in_tn0"], args["in_tn1"], args["in_tn2"]};
+  size_t st[4] = {(size_t)args["in_s0"], (size_t)args["in_s1"], (size_t)args["in_s2"], (size_t)args["in_s3"]}, hs = args["in_hs"], ts = args["in_ts"];
+  unsigned long long tp[4] = {args["in_tp0"], args["in_tp1"], args["in_tp2"], args["in_tp3"]}, tn[4] = {args["in_tn0"], args["in_tn1"], args["in_tn2"], args["in_tn3"]};
   tcb* older = q.tail;
   for (unsigned i = 0; i < n; ++i) {
     tcb* b = blk[3 + i]; b->stamp.store(st[i]); b->prev.store(mk(older, tp[i]));
@@ -64,7 +64,7 @@ int main(int argc, char** argv) {
   if (op == 0) q.push(X);
   else { R = blk[3 + k]; my = R->stamp.load(); res = q.remove(R); }
   // ---- the logical contents afterwards, oldest first
-  tcb* seq[4]; unsigned m = 0;
+  tcb* seq[5]; unsigned m = 0;
   for (unsigned i = 0; i < n; ++i) if (!(op == 1 && i == k)) seq[m++] = blk[3 + i];
   if (op == 0) seq[m++] = X;
   size_t t = q.tail_stamp(), h = q.head_stamp();
@@ -93,10 +93,10 @@ int main(int argc, char** argv) {
   } else {
     // mid-operation states: prev chain from head, bounds, result
     unsigned dbit = d ? 1u << (d - 1) : 0, rbit = op == 1 ? 1u << k : 0, all = (1u << n) - 1;
-    unsigned must = op == 0 ? ((all & ~(dst >= 3 ? dbit : 0)) | 8u) : (all & ~rbit & ~dbit), never = rbit | (dst >= 3 ? dbit : 0), seen = 0;
+    unsigned must = op == 0 ? ((all & ~(dst >= 3 ? dbit : 0)) | (1u << lmax)) : (all & ~rbit & ~dbit), never = rbit | (dst >= 3 ? dbit : 0), seen = 0;
     tcb* cur = q.head; size_t last = q.head->stamp.load(); bool ok = false;
     for (int step = 0; step < 8; ++step) {
-      if (cur != q.head && cur != q.tail) { unsigned bit = 0; for (unsigned i = 0; i < 3; ++i) if (cur == blk[3 + i]) bit = 1u << i; if (cur == X) bit = 8; CHECK(bit && !(never & bit), "prev chain contains a block that must be out"); seen |= bit; }
+      if (cur != q.head && cur != q.tail) { unsigned bit = 0; for (unsigned i = 0; i < lmax; ++i) if (cur == blk[3 + i]) bit = 1u << i; if (cur == X) bit = 1u << lmax; CHECK(bit && !(never & bit), "prev chain contains a block that must be out"); seen |= bit; }
       if (cur == q.tail) { ok = (seen & must) == must; break; }
       tcb* p = cur->prev.load().get(); if (!p || p == q.head) break;
       if (p != q.tail) { if (!(p->stamp.load() < last)) break; last = p->stamp.load(); }
